@@ -93,18 +93,18 @@ Print Assumptions table_absent_key_raises_keyerror.
 
 (* Tree: a raising step (KeyError, FormatError) returns the tree it was given *)
 Theorem tree_failed_op_changes_nothing :
-  forall (K V : Type) (cmp : K -> K -> comparison) (t t' : RBTree.rbt K V) (o : RBTree.op K V) (e : RBTree.texn),
-  RBTree.t_step K V cmp t o = (t', RBTree.ORaise V e) -> t' = t.
+  forall (K V : Type) (cmp : K -> K -> comparison) (us : bool -> bool -> bool) (t t' : RBTree.rbt K V) (o : RBTree.op K V) (e : RBTree.texn),
+  RBTree.t_step K V cmp us t o = (t', RBTree.ORaise V e) -> t' = t.
 Proof. exact tree_step_raise_unchanged. Qed.
 Print Assumptions tree_failed_op_changes_nothing.
 
 (* Tree: every step agrees with the ordered-map specification, which prescribes KeyError for an absent key and
    FormatError for resize(n > 0) and leaves the map unchanged in both cases *)
-Theorem tree_step_follows_spec : forall (K V : Type) (cmp : K -> K -> comparison), RBRefine.total_order cmp ->
+Theorem tree_step_follows_spec : forall (K V : Type) (cmp : K -> K -> comparison) (us : bool -> bool -> bool), RBRefine.total_order cmp ->
   forall (t : RBTree.rbt K V) (o : RBTree.op K V), RBRefine.rb_inv K V cmp t ->
-    RBRefine.rb_inv K V cmp (fst (RBTree.t_step K V cmp t o)) /\
-    RBRefine.abs K V (fst (RBTree.t_step K V cmp t o)) = fst (RBTree.spec_step K V cmp (RBRefine.abs K V t) o) /\
-    snd (RBTree.t_step K V cmp t o) = snd (RBTree.spec_step K V cmp (RBRefine.abs K V t) o).
+    RBRefine.rb_inv K V cmp (fst (RBTree.t_step K V cmp us t o)) /\
+    RBRefine.abs K V (fst (RBTree.t_step K V cmp us t o)) = fst (RBTree.spec_step K V cmp (RBRefine.abs K V t) o) /\
+    snd (RBTree.t_step K V cmp us t o) = snd (RBTree.spec_step K V cmp (RBRefine.abs K V t) o).
 Proof. exact step_refines_total. Qed.
 Print Assumptions tree_step_follows_spec.
 
